@@ -131,10 +131,80 @@ pub fn random_vtree(n: usize, rng: &mut Rng) -> (&'static str, Vt) {
 /// clause list as (label, polarity) pairs, the harness's own view of a CNF
 pub type Clauses = Vec<Vec<(usize, bool)>>;
 
+thread_local! {
+    /// "wide" regimes: dense oracle variable i is the rsdd label LABMAP[i] (labels spread over
+    /// up to a few hundred indices, most of them unused); None = identity
+    static LABMAP: std::cell::RefCell<Option<Vec<usize>>> = const { std::cell::RefCell::new(None) };
+}
+/// sets a label map for the current scope (reset on drop, also while unwinding)
+pub struct LabelMapGuard;
+impl LabelMapGuard {
+    pub fn new(m: Vec<usize>) -> LabelMapGuard {
+        set_label_map(Some(m));
+        LabelMapGuard
+    }
+}
+impl Drop for LabelMapGuard {
+    fn drop(&mut self) {
+        set_label_map(None);
+    }
+}
+/// restrict the current map to the n dense variables of an input and give the largest label to
+/// variable n-1 (which occurs in the input), so that every dense variable below n stays inside
+/// the label range the rsdd object knows, as it does without a map
+pub fn fit_label_map(n: usize) {
+    LABMAP.with(|x| {
+        if let Some(m) = x.borrow_mut().as_mut() {
+            m.truncate(n);
+            if n > 0 {
+                let imax = (0..n).max_by_key(|i| m[*i]).unwrap();
+                m.swap(imax, n - 1);
+            }
+        }
+    });
+}
+pub fn set_label_map(m: Option<Vec<usize>>) {
+    LABMAP.with(|x| *x.borrow_mut() = m);
+}
+pub fn label_map() -> Option<Vec<usize>> {
+    LABMAP.with(|x| x.borrow().clone())
+}
+/// the rsdd label of dense variable v
+pub fn lab(v: usize) -> VarLabel {
+    LABMAP.with(|x| match &*x.borrow() {
+        Some(m) => VarLabel::new(m[v] as u64),
+        None => VarLabel::new(v as u64),
+    })
+}
+/// the dense variable of an rsdd label (a label that is not in the map comes back as a
+/// number no oracle knows, so that the comparison it takes part in fails)
+pub fn unlab(l: VarLabel) -> usize {
+    LABMAP.with(|x| match &*x.borrow() {
+        Some(m) => m.iter().position(|y| *y == l.value_usize()).unwrap_or(1_000_000 + l.value_usize()),
+        None => l.value_usize(),
+    })
+}
+/// a random spread of n dense variables over up to 200 labels, biased to the word boundaries
+pub fn random_label_map(n: usize, rng: &mut Rng) -> Vec<usize> {
+    let top = usize::max(n + 1, *rng.pick(&[66usize, 70, 129, 140, 200]));
+    let mut pool: Vec<usize> = (0..top).collect();
+    rng.shuffle(&mut pool);
+    let mut lab: Vec<usize> = pool[..n].to_vec();
+    if rng.bool() {
+        lab.sort();
+    }
+    for (i, b) in [63usize, 64, 127, 128].iter().enumerate() {
+        if *b < top && i < n && rng.bool() && !lab.contains(b) {
+            lab[i] = *b;
+        }
+    }
+    lab
+}
+
 pub fn clauses_to_cnf(cl: &Clauses) -> Cnf {
     let v: Vec<Vec<Literal>> = cl
         .iter()
-        .map(|c| c.iter().map(|(v, p)| Literal::new(VarLabel::new(*v as u64), *p)).collect())
+        .map(|c| c.iter().map(|(v, p)| Literal::new(lab(*v), *p)).collect())
         .collect();
     Cnf::new(&v)
 }
